@@ -147,6 +147,8 @@ case_hdiff(long idx, void *ctx)
         free(out2);
     }
     free(out);
+    if (idx % 17 == 0)
+        mc_sample("hdiff: %s", g_case);
     tc_cleanup();
 }
 
@@ -508,6 +510,8 @@ case_import(long idx, void *ctx)
                 SDendaccess(s);
             if (S != FAIL)
                 SDend(S);
+            if (idx % 13 == 0)
+                mc_sample("%s", g_case);
             mc_count("imports_compared", 1);
         }
     }
